@@ -551,6 +551,12 @@ def locate(fn, loc):
         if len(hits) <= loc[1]:
             raise Fail("%s: no `for … in range(<expr>)` loop #%d" % (fn.name, loc[1]), fn)
         return hits[loc[1]].iter.args[0]
+    if kind == "for_iter":
+        # ("for_iter", nth): the iterable of the nth (source order) `for` loop of the function (for shape pins)
+        hits = sorted((n for n in ast.walk(fn) if isinstance(n, ast.For)), key=lambda n: (n.lineno, n.col_offset))
+        if len(hits) <= loc[1]:
+            raise Fail("%s: no `for` loop #%d" % (fn.name, loc[1]), fn)
+        return hits[loc[1]].iter
     if kind == "fresh_dict":
         # pin: `target` is assigned a fresh empty dict literal (per-object state, not shared between objects)
         v = assign_value(fn, loc[1], 0)
@@ -609,6 +615,27 @@ def locate(fn, loc):
         if len(hits) <= loc[1]:
             raise Fail("%s: no `for ... in range(x)` loop" % fn.name, fn)
         return hits[loc[1]].iter.args[0]
+    if kind == "call_nargs":
+        # ("call_nargs", callee suffix, nth): how many arguments (positional and keyword) the nth call to `callee` in the function
+        # passes -> a numeric constant (e.g. "`async_send(out)` is called with the packet alone": no address, i.e. multicast)
+        hits = [n for n in ast.walk(fn) if isinstance(n, ast.Call) and ast.unparse(n.func).endswith(loc[1])]
+        hits.sort(key=lambda n: (n.lineno, n.col_offset))
+        if len(hits) <= loc[2]:
+            raise Fail("%s: no call to %s" % (fn.name, loc[1]), fn)
+        c = hits[loc[2]]
+        if any(isinstance(a, ast.Starred) for a in c.args) or any(k.arg is None for k in c.keywords):
+            raise Fail("%s: call to %s unpacks arguments" % (fn.name, loc[1]), c)
+        return ast.copy_location(ast.Constant(len(c.args) + len(c.keywords)), c)
+    if kind == "param_default_is_none":
+        # ("param_default_is_none", parameter): is the default value of the parameter the constant `None`? -> a boolean constant
+        a = fn.args
+        pos = a.posonlyargs + a.args
+        defaults = dict(zip([x.arg for x in pos[len(pos) - len(a.defaults):]], a.defaults))
+        defaults.update({x.arg: d for x, d in zip(a.kwonlyargs, a.kw_defaults) if d is not None})
+        if loc[1] not in [x.arg for x in pos + a.kwonlyargs]:
+            raise Fail("%s: no parameter %s" % (fn.name, loc[1]), fn)
+        d = defaults.get(loc[1])
+        return ast.copy_location(ast.Constant(d is not None and isinstance(d, ast.Constant) and d.value is None), fn)
     raise Fail("bad locator %r" % (loc,))
 
 
@@ -765,7 +792,11 @@ def lean_str(s):
     return '"' + "".join(out) + '"'
 
 
-def gen(repo, outdir, selftest_out=None):
+def gen(repo, outdir, selftest_out=None, failures=None):
+    """`failures`: when a dict is passed, a leaf that cannot be located/translated no longer aborts the whole translation:
+    the failure is recorded under its Gen module (`failures[mod] = "file:line: message"`), that module's file is put back
+    to the committed (validated) version, and every other module is generated as usual.  Only the properties whose proofs
+    import a failed module then have a broken tie (the caller decides); constants and identity field lists stay global."""
     src = pathlib.Path(repo) / "src" / "zeroconf"
     trees = {}
 
@@ -776,6 +807,14 @@ def gen(repo, outdir, selftest_out=None):
                 trees[rel] = ast.parse(p.read_text())
             except (OSError, SyntaxError) as ex:
                 raise Fail("cannot parse: %s" % ex, file=rel)
+            # a function that equals its validated baseline up to a bijective renaming of local variables is read with
+            # the baseline's spelling (tools/alpha.py): locators are keyed on source text, the meaning is unchanged
+            try:
+                import alpha
+
+                alpha.normalise(trees[rel], rel)
+            except ImportError:
+                pass
         return trees[rel]
 
     # ---- constants
@@ -846,6 +885,7 @@ def gen(repo, outdir, selftest_out=None):
     by_mod = {}
     selftests = []
     for mod, lname, rel, qual, loc, params, rty, opts in load_leaves():
+      try:
         t = tree(rel)
         fenv = per_file.get(rel, (cenv, {}))[0] if rel in per_file else module_consts(t, cenv)[0]
         try:
@@ -918,6 +958,15 @@ def gen(repo, outdir, selftest_out=None):
         )
         selftests.append({"mod": mod, "lean": lname, "file": rel, "qual": qual, "expr": ast.unparse(e),
                           "params": [list(p) for p in params], "rty": rty, "opts": opts})
+      except Fail as f:
+        if failures is None:
+            raise
+        if f.file is None:
+            f.file = rel
+        failures.setdefault(mod, "%s:%s: %s" % (f.file, getattr(f.node, "lineno", "?") if f.node is not None else "?", f.msg))
+    for mod in list(failures or {}):
+        by_mod.pop(mod, None)
+        selftests[:] = [x for x in selftests if x["mod"] != mod]
     for mod, defs in by_mod.items():
         files[mod + ".lean"] = (
             "/- GENERATED by tools/gen_lean.py from /repo/src/zeroconf -- do not edit -/\nimport Zc.Gen.Const\nnamespace Zc.Gen.%s\nopen Zc.Gen\n\n" % mod
@@ -997,9 +1046,22 @@ def gen(repo, outdir, selftest_out=None):
     changed = []
     for name, text in files.items():
         p = outdir / name
+        if text is None:
+            continue
         if not p.exists() or p.read_text() != text:
             p.write_text(text)
             changed.append(name)
+    for mod in (failures or {}):
+        # a module with a leaf that no longer translates keeps its committed (validated) text
+        import subprocess
+
+        r = subprocess.run(["git", "show", "HEAD:lean/Zc/Gen/%s.lean" % mod], cwd=str(ROOT), stdout=subprocess.PIPE, stderr=subprocess.DEVNULL)
+        if r.returncode == 0:
+            files[mod + ".lean"] = None
+            q = outdir / (mod + ".lean")
+            if not q.exists() or q.read_bytes() != r.stdout:
+                q.write_bytes(r.stdout)
+                changed.append(mod + ".lean(committed)")
     for p in outdir.glob("*.lean"):
         if p.name not in files:
             p.unlink()
